@@ -94,6 +94,39 @@ def gen(chk, tier):
         verify("extreme", b32(pt[0]), b32(pt[1]), rb(rng, 32), b32(N), b32(1))
         verify("extreme", b32(pt[0]), b32(pt[1]), rb(rng, 32), b32(1), b32(N))
         verify("extreme", b32(pt[0]), b32(pt[1]), rb(rng, 32), b32(T256 - 1), b32(T256 - 1))
+    # word-structured overshoots: r = n - 1 + D, s = n - 1 + D, x = p - 1 + D with D a value whose machine
+    # limbs have zero halves / single bits (a word-wise range comparison with a narrow accumulator, or one
+    # that looks at part of each limb, takes these for "equal"); the equation holds for the reduced value
+    from ..sm2gen import limb_structured
+    for D in limb_structured(rng, 10 if q else 300, maxbits=224):
+        if D < 2:
+            continue
+        d = rscalar(rng)
+        r0 = D - 1
+        s = rscalar(rng)
+        pt, e, r, R = forged(d, s, (r0 + s) % N)
+        if R is not None and (r0 + s) % N:
+            verify("forged_r_structured_overshoot", b32(pt[0]), b32(pt[1]), b32(e), b32(r0 + N), b32(s))
+        s0 = D - 1
+        t = rscalar(rng)
+        pt, e, r, R = forged(d, s0, t)
+        if R is not None and r:
+            verify("forged_s_structured_overshoot", b32(pt[0]), b32(pt[1]), b32(e), b32(r), b32(s0 + N))
+    nk = 0
+    for D in limb_structured(rng, 60 if q else 1500, maxbits=224):
+        x0 = D - 1
+        y0 = ec.lift_x(x0) if x0 >= 0 else None
+        if y0 is None:
+            continue
+        s, t = rscalar(rng), rscalar(rng)
+        pt, e, r, R = forged((x0, y0), s, t)
+        if r == 0 or R is None:
+            continue
+        verify("key_structured_x_valid", b32(x0), b32(y0), b32(e), b32(r), b32(s))
+        verify("key_structured_noncanonical_x", b32(x0 + P), b32(y0), b32(e), b32(r), b32(s))
+        nk += 1
+        if nk >= (8 if q else 300):
+            break
     # R chosen FIRST: x_R in the gap [n, p) (the reduction of e + x_R matters), x_R tiny, x_R = p - small;
     # P = t^-1 (R - [s]G) makes (e, r, s) valid under P
     def lift_from(x0, step):
